@@ -2,7 +2,8 @@
 # usage: tools/run_all.sh <quick|thorough> [ids...]
 TIER=${1:-quick}; shift
 IDS=${@:-C01 C02 C03 C04 C05 C06 C07 C08 C09 C10 C11 C12 C13 C14 C15 C16 C17 C18 C19 C20}
-cd /verif
+cd "$(dirname "$0")/.."
+mkdir -p /tmp/seeds
 for c in $IDS; do
   s=$(date +%s); ./bin/check $c $TIER > /tmp/seeds/all-$c-$TIER.log 2>&1; rc=$?
   echo "$c exit=$rc $(( $(date +%s) - s ))s $(grep '^SUMMARY' /tmp/seeds/all-$c-$TIER.log | cut -d' ' -f4-)"
